@@ -177,11 +177,11 @@ func runAlpha(p *Property, tags string, modes ...string) []mutantResult {
 		}
 		c2 := runRules(p, "quick", tags, overlay)
 		res := mutantResult{ID: id, Verdict: "QUIET", Detail: fmt.Sprintf("%d variables renamed in %d files", n, len(overlay))}
-		seen := map[string]bool{}
+		var alarms []string
 		for _, o := range c2.Obls {
-			seen[o.Key] = true
 			if o.Rule == "load" && o.Status == StIncomplete {
 				res = mutantResult{ID: id, Verdict: "BROKEN", Detail: "renamed tree does not compile: " + o.Reason}
+				alarms = nil
 				break
 			}
 			if o.Status != StViolation && o.Status != StIncomplete {
@@ -190,8 +190,14 @@ func runAlpha(p *Property, tags string, modes ...string) []mutantResult {
 			if st, was := base[o.Key+"|"+o.Descriptor]; was && (st == StViolation || st == StIncomplete) {
 				continue
 			}
-			res = mutantResult{ID: id, Verdict: "ALARM", Detail: o.Key + ": " + o.Reason}
-			break
+			r := o.Reason
+			if len(r) > 220 {
+				r = r[:220] + "…"
+			}
+			alarms = append(alarms, o.Key+": "+r)
+		}
+		if len(alarms) > 0 {
+			res = mutantResult{ID: id, Verdict: "ALARM", Detail: fmt.Sprintf("%d new: ", len(alarms)) + strings.Join(alarms, "\n      ")}
 		}
 		out = append(out, res)
 	}
